@@ -24,6 +24,7 @@ import json
 import os
 import random
 import re
+import shutil
 import subprocess
 import time
 
@@ -447,7 +448,11 @@ def run_e2e_batch(chk, recs, idxs, label):
     C.write_module(mod, {"main.go": e2e_program(recs, idxs)}, modname="c08e2e" + label)
     exe = os.path.join(mod, "prog.exe")
     t0 = time.time()
-    ok, out = C.llgo_build(mod, exe, rundir=rd, timeout=1500)
+    # concurrent llgo processes must not share one cache: every program gets a private copy of the golden cache
+    cache = os.path.join(mod, "cache")
+    shutil.copytree(C.golden_cache("O0", "O0", ""), cache)
+    ok, out = C.llgo_build(mod, exe, rundir=mod, timeout=1500, extra_env={"XDG_CACHE_HOME": cache})
+    shutil.rmtree(cache, ignore_errors=True)
     C.log("end-to-end program %s: %d terms built by llgo in %.0fs" % (label, len(idxs), time.time() - t0))
     if not ok:
         raise C.Undecided("llgo cannot build the layout program %s:\n%s" % (label, out[-3000:]))
